@@ -154,7 +154,10 @@ class NamespaceMixin(object):
            cxx_template -
         """
         # parse declaration to find out what it is.
-        fullast = declast.check_decl(decl, namespace=self)
+        # (a block is transparent: its declarations are parsed in the
+        #  scope of the enclosing library, namespace or class)
+        fullast = declast.check_decl(
+            decl, namespace=getattr(self, "decl_scope", self))
         template_parameters = []
         if isinstance(fullast, declast.Template):
             # Create list of template parameter names
@@ -920,11 +923,12 @@ class BlockNode(AstNode, NamespaceMixin):
         self.parent = parent
         # A block is transparent, it is the same kind of node as its parent.
         self.nodename = parent.nodename
+        self.decl_scope = getattr(parent, "decl_scope", parent)
 
         self.classes = parent.classes
         self.enums = parent.enums
         self.functions = parent.functions
-        self.namespaces = parent.namespaces
+        self.namespaces = getattr(parent, "namespaces", [])  # (a ClassNode has none)
         self.typedefs = parent.typedefs
         self.variables = parent.variables
         self.scope = parent.scope
